@@ -26,7 +26,7 @@ NODE_RULE = ("one evaluation = one seeded run: (config, bundle specs, op script)
              "fired or the scheduler chose among several parked tasks; distinct = distinct hash of the canonical event log of the run.")
 
 
-def node(focus, budget_q=60, budget_t=1500, variants=None, extra_assume=None, required=None, level="exploration"):
+def node(focus, budget_q=60, budget_t=700, variants=None, extra_assume=None, required=None, level="exploration"):
     return {
         "pkg": "pkg/routing", "binary": "routing.test", "harness": "node", "focus": focus,
         "variants": variants or ALGOS, "budget": {"quick": budget_q, "thorough": budget_t},
@@ -84,7 +84,7 @@ C04_RULE = ("seven harnesses; one evaluation = one seeded well-formed message (s
 
 PROPS = {
     "C03": {"pkg": "pkg/cla/mtcp", "binary": "mtcp.test", "harness": "crc", "focus": "C03", "variants": [""],
-            "budget": {"quick": 30, "thorough": 600}, "level": "fault_enumeration", "rule": C03_RULE,
+            "budget": {"quick": 30, "thorough": 400}, "level": "fault_enumeration", "rule": C03_RULE,
             "real": ["bpv7 serialiser and parser (primary / canonical block CRC computation and check)", "mtcp.MTCPServer.handleSender (framing, bundle decode, hand-up)", "cboring"],
             "stub": ["the link: simulated TCP-like stream that flips the chosen bits after the MTCP length prefix", "CRC oracle: independent bitwise CRC-16/X-25 and CRC-32C over independently delimited block bytes (simk.BlockCRC)"],
             "assumptions": COMMON_ASSUME + ["bursts are confined to one block and to the width of that block's CRC; multi-bit patterns that move block boundaries are out of scope (as in the statement)",
@@ -98,7 +98,7 @@ PROPS = {
                 {"pkg": "pkg/agent", "binary": "agent.test", "harness": "dec-rest", "variants": [""]},
                 {"pkg": "pkg/agent", "binary": "agent.test", "harness": "dec-wam", "variants": [""]},
                 {"pkg": "pkg/discovery", "binary": "disc.test", "harness": "dec-disc", "variants": [""]}],
-            "focus": "C04", "budget": {"quick": 45, "thorough": 600}, "level": "fault_enumeration", "rule": C04_RULE, "mem_limit_gb": 8, "hang_is_violation": True,
+            "focus": "C04", "budget": {"quick": 45, "thorough": 400}, "level": "fault_enumeration", "rule": C04_RULE, "mem_limit_gb": 8, "hang_is_violation": True,
             "real": ["mtcp.MTCPServer.handleSender and the bpv7/cboring bundle decoder behind it", "tcpclv4 utils.MessageSwitchReaderWriter + msgs.ReadMessage and all message Unmarshal functions (incl. the contact header)",
                      "tcpclv4 utils.TransferManager.Send / OutgoingTransfer.NextSegment with peer-declared segment sizes", "discovery.UnmarshalAnnouncements",
                      "bpv7: NewAdministrativeRecordFromCbor / StatusReport, CanonicalBlock + ExtensionBlockManager.ReadBlock for payload, previous node, bundle age, hop count, binary spray, DTLSR, PRoPHET and signature blocks, ParseBundle, NewEndpointID",
@@ -116,7 +116,7 @@ PROPS = {
                 {"pkg": "pkg/routing", "binary": "routing.test", "harness": "local", "variants": [""]},
                 {"pkg": "pkg/routing", "binary": "routing.test", "harness": "local", "variants": [""]},
                 {"pkg": "pkg/agent", "binary": "agent.test", "harness": "mux", "variants": [""]}],
-            "focus": "C07", "budget": {"quick": 60, "thorough": 1200}, "level": "exploration", "rule": LOCAL_RULE + MUX_RULE,
+            "focus": "C07", "budget": {"quick": 60, "thorough": 600}, "level": "exploration", "rule": LOCAL_RULE + MUX_RULE,
             "real": ["routing.Core local delivery path, AgentManager", "agent.MuxAgent (also on its own, with held children, for registration changes during a fan-out)", "agent.RestAgent behind its gorilla/mux router (recorder requests)", "agent.WebSocketAgent (upgrade handler, per-client goroutines, inner MuxAgent) and agent.WebSocketAgentConnector as its client", "agent.PingAgent", "storage.Store"],
             "stub": ["application agents other than REST/ping: recording mock agents", "HTTP transport: httptest recorder, no sockets", "WebSocket transport: net.Pipe between the real WebSocketAgentConnector and the real WebSocketAgent.ServeHTTP (minimal hijackable ResponseWriter), no sockets, no http.Server", "convergence layers: scripted peers"],
             "assumptions": COMMON_ASSUME + ["sync.Map order inside RestAgent is not owned; the oracle demands delivery to all registered clients, which does not depend on it", "REST client uuids (crypto/rand) are canonicalised to client indices before they reach the scheduler or the log"],
@@ -124,7 +124,7 @@ PROPS = {
     "C12": {"parts": [
                 {"pkg": "pkg/cla/mtcp", "binary": "mtcp.test", "harness": "mtcp", "variants": [""], "burst": True},
                 {"pkg": "pkg/cla/bbc", "binary": "bbc.test", "harness": "bbc", "variants": [""]}],
-            "focus": "C12", "budget": {"quick": 45, "thorough": 900}, "level": "exploration", "rule": C12_RULE,
+            "focus": "C12", "budget": {"quick": 45, "thorough": 450}, "level": "exploration", "rule": C12_RULE,
             "real": ["mtcp.MTCPClient (Send, keep-alive handler, failure reporting)", "mtcp.MTCPServer.handleSender", "bbc.Connector (Send, handlerRead, handlerWrite, handleIncomingFragment)",
                      "bbc Outgoing/IncomingTransmission, Fragment, xz compression", "bpv7 codec"],
             "stub": ["TCP sockets -> simConn (in-memory TCP-like stream: seeded chunking, cut at a byte offset, writes fail after the cut)", "LoRa modem (rf95) -> simulated broadcast medium that applies the fault pattern to a fragment train",
@@ -135,20 +135,20 @@ PROPS = {
     "C11": {"parts": [
                 {"pkg": "pkg/cla/tcpclv4/internal/utils", "binary": "tcpcl.test", "harness": "tcpcl", "variants": [""]},
                 {"pkg": "pkg/cla/tcpclv4", "binary": "tcpcl-session.test", "harness": "tcpcl-session", "variants": [""]}],
-            "focus": "C11", "budget": {"quick": 45, "thorough": 900}, "level": "exploration", "rule": TCPCL_RULE + SESSION_RULE,
+            "focus": "C11", "budget": {"quick": 45, "thorough": 450}, "level": "exploration", "rule": TCPCL_RULE + SESSION_RULE,
             "real": ["utils.TransferManager (Send, handle)", "utils.OutgoingTransfer / IncomingTransfer", "msgs.DataTransmissionMessage / DataAcknowledgementMessage / TransferRefusalMessage values", "bpv7 codec",
                      "session level: tcpclv4.Client (Start, handle, Send, Close, restart of the active side), stages.StageHandler with Contact / SessInit / SessEstablished stages, utils.KeepaliveTicker, utils.MessageSwitchReaderWriter and all message codecs on the byte stream"],
             "stub": ["message level: messages travel as values over simulated FIFO channels (no byte stream, no stages)", "session level: TCP socket -> simulated duplex byte stream (chunking, reset, one-way blackhole); the listener's accept loop is replaced by creating the passive Client on the stream's other end (as newClientTCP does)", "TCP / WebSocket sockets"],
             "assumptions": COMMON_ASSUME + ["the wire buffers without bound behind the schedule point (like socket buffers), channels towards the managers hold 32 messages like the real message switch"],
             "required_probes": ["send_success", "send_error", "m_divides_L", "wire_close", "session_established", "send_ok", "stream_cut", "stream_stall", "idle_keepalive_periods", "restart_after_loss"]},
     "C08": {"pkg": "pkg/routing", "binary": "routing.test", "harness": "store", "focus": "C08", "variants": [""],
-            "budget": {"quick": 60, "thorough": 1200}, "level": "exploration", "rule": STORE_RULE,
+            "budget": {"quick": 60, "thorough": 600}, "level": "exploration", "rule": STORE_RULE,
             "real": ["storage.Store on badgerhold/badger with real files under /dev/shm", "storage.BundleItem/BundlePart (part files, Load, IsComplete)", "bpv7 reassembly as used by the store", "routing.Core started on the post-crash directory"],
             "stub": ["OS crash: directory copied while the operation is parked at a hook (process-kill model: every completed write survives)", "disk faults below the file API: not injected"],
             "assumptions": COMMON_ASSUME + ["part files are referenced by absolute path in the index; the post-crash store reads them from the live directory at the instant of the crash (unchanged while the operation is parked)"],
             "required_probes": ["crash_point", "crash_in_place", "reopen", "rmw_interleave", "complete_record_loaded", "update_of_deleted_record"]},
     "C16": {"pkg": "pkg/cla", "binary": "cla.test", "harness": "cla", "focus": "C16", "variants": [""],
-            "budget": {"quick": 40, "thorough": 900}, "level": "exploration", "rule": CLA_RULE,
+            "budget": {"quick": 40, "thorough": 450}, "level": "exploration", "rule": CLA_RULE,
             "real": ["cla.Manager (handler goroutine, retry ticker, registration table)", "convergenceElem activate/deactivate/handler"],
             "stub": ["convergence adapters: scripted Start/Close/Channel (that is the seam the property is about)"],
             "assumptions": COMMON_ASSUME + ["the order in which several waiting adapters are started on one retry tick (sync.Map order) is not owned; adapters are independent and the log is per adapter"],
